@@ -120,6 +120,15 @@ def tv(chk, binary, tag, n, idx_deps=()):
         chk.extra.setdefault("tv", {})[tag] = {"functions": int(m.group(1)), "evaluations": int(m.group(2)),
                                                "inputs_with_not_all_components_equal": int(m.group(3) or 0),
                                                "per_type": dict(kv.split("=") for kv in m.group(5).split())}
+        # leaves of each branching tree reached by the TV inputs (TVPATHS lines; a translator slip on a leaf never reached is invisible to TV)
+        ph = dict((mm.group(1), [int(mm.group(2)), int(mm.group(3))]) for mm in re.finditer(r"TVPATHS (\S+) hit=(\d+) paths=(\d+)", out))
+        if ph:
+            chk.extra["tv"][tag]["leaves_reached"] = {"trees": len(ph), "leaves_hit": sum(v[0] for v in ph.values()),
+                                                      "leaves_total": sum(v[1] for v in ph.values()),
+                                                      "least_covered": sorted(([k] + v for k, v in ph.items()), key=lambda t: t[1] / t[2])[:8]}
+            if not hasattr(chk, "tv_paths"):
+                chk.tv_paths = {}
+            chk.tv_paths[tag] = ph      # {entry: [leaves hit, leaves]} for checks that oblige a coverage floor (not written to the evidence)
     for l in fails[:20]:
         mm = re.match(r"TVFAIL (\S+) (\S+) :: (.*?) :: in=(.*)", l)
         if mm:
@@ -287,8 +296,8 @@ LEAVES = {"V2": ["x", "y"], "V3": ["x", "y", "z"], "V4": ["x", "y", "z", "w"], "
           "Interval": ["min", "max"], "Line3": ["pos.x", "pos.y", "pos.z", "dir.x", "dir.y", "dir.z"],
           "Plane3": ["normal.x", "normal.y", "normal.z", "distance"], "Sphere3": ["center.x", "center.y", "center.z", "radius"]}
 ARITY["Box4"] = "⟨⟨%s, %s, %s, %s⟩, ⟨%s, %s, %s, %s⟩⟩"
-EXTRA_ORDER = ["tmin", "tmax", "teps", "tlowest", "sqrt", "sin", "cos", "tan", "acos", "asin", "atan", "exp", "log", "atan2", "pow"]
-STUB_INDEX = {"sqrt": 0, "sin": 1, "cos": 2, "tan": 3, "acos": 5, "asin": 6, "atan": 7, "exp": 8, "log": 9}
+EXTRA_ORDER = ["tmin", "tmax", "teps", "tlowest", "sqrt", "sin", "cos", "tan", "acos", "asin", "atan", "exp", "log", "atan2", "pow", "cast"]
+STUB_INDEX = {"sqrt": 0, "sin": 1, "cos": 2, "tan": 3, "acos": 5, "asin": 6, "atan": 7, "exp": 8, "log": 9, "cast": 17}
 LEAN_TV_PRELUDE = '''
 def stNum : Nat → Rat | 0 => 1 | 1 => 2 | 2 => 3 | 3 => 5 | 4 => 7 | 5 => 11 | 6 => 13 | 7 => 17 | _ => 19
 def st1 (w : Nat) (x : Rat) : Rat := x * (stNum (w % 9) / ((w : Rat) + 2)) + ((w : Rat) + 1) / 3
@@ -313,7 +322,10 @@ def _rat(s):
     return "((%s : Rat) / %s)" % (n, d) if d != "1" else "(%s : Rat)" % n
 
 
-def lean_tv(chk, binary, tag, index, n=4, idx_deps=()):
+def lean_tv(chk, binary, tag, index, n=4, idx_deps=(), param_stubs=None):
+    """param_stubs: {parameter-function name: Lean term at Rat} for entries whose opaque callees are PARAMETERS of the emitted
+    definition (C07 gj44...); they follow the EXTRA_ORDER arguments in name order, as in the emitter.  The binary must evaluate the
+    same stubs at exact fractions (opaque.h Native::q), otherwise it prints RATSKIP for those entries as before."""
     cmd = [binary, "rattv", str(chk.seed), str(n)]
     for d in idx_deps:
         cmd += ["--idx", d]
@@ -351,6 +363,9 @@ def lean_tv(chk, binary, tag, index, n=4, idx_deps=()):
                 elif e == "atan2": args.append("(st2 0)")
                 elif e == "pow": args.append("(st2 1)")
                 else: args.append("(st1 %d)" % STUB_INDEX[e])
+        for e in sorted(param_stubs or {}):
+            if e in (d.get("extra") or "").split(","):
+                args.append(param_stubs[e])
         for p in [x for x in (d.get("params") or "").split(",") if x]:
             pn, _, sh = p.partition(":")
             if sh == "-":
